@@ -35,9 +35,11 @@ class MyArr(np.ndarray):
 
 
 def custom_getitem(a, b, asarray=True, lock=None):
+    """The user's getitem DECODES what the store holds (the store of the 'getitem' kind keeps value + 7): a read that
+    bypasses it (the default getter) returns other elements than NumPy indexing of the source."""
     custom_getitem.calls += 1
-    c = a[b]
-    return np.asarray(c) if asarray else c
+    c = np.asarray(a[b]) - 7
+    return c
 
 
 custom_getitem.calls = 0
@@ -102,8 +104,9 @@ def gen_case(rng, tier):
             if grid and len(grid) == len(axes):
                 grid = None if False else grid
     two = rng.random() < 0.25
-    lazy = kind in ("lock", "store", "store_grid", "wrapped") and rng.random() < (0.5 if kind == "lock" else 0.2)
-    return {"shape": list(shape), "kind": kind, "grid": grid, "chunks": chunks, "ops": ops, "two_consumers": two, "dtype": rng.choice(["i8", "f8"]), "lazy": lazy}
+    inline_lock = kind == "inline" and rng.random() < 0.6
+    lazy = (kind in ("lock", "store", "store_grid", "wrapped") or inline_lock) and rng.random() < (0.5 if kind == "lock" or inline_lock else 0.2)
+    return {"shape": list(shape), "kind": kind, "grid": grid, "chunks": chunks, "ops": ops, "two_consumers": two, "dtype": rng.choice(["i8", "f8"]), "lazy": lazy, "inline_lock": inline_lock}
 
 
 def _uniform(n, c):
@@ -130,10 +133,10 @@ def build_source(case):
     elif kind == "subclass":
         src = data.copy().view(MyArr)
     else:
-        if kind == "lock":
+        if kind == "lock" or case.get("inline_lock"):
             lock = threading.Lock()
             kw["lock"] = lock
-        store = rec.RecStore(data, chunks=grid if kind != "store_shards" else None, shards=grid if kind == "store_shards" else None, lock=lock, allow_fancy=(kind != "nofancy"), lazy=bool(case.get("lazy")))
+        store = rec.RecStore(data + 7 if kind == "getitem" else data, chunks=grid if kind != "store_shards" else None, shards=grid if kind == "store_shards" else None, lock=lock, allow_fancy=(kind != "nofancy"), lazy=bool(case.get("lazy")))
         src = store
         if case.get("lazy"):
             kw["meta"] = np.empty((0,) * len(shape), dtype=data.dtype)
@@ -207,7 +210,7 @@ def judge(case, ctx):
                 break
         if case.get("lazy"):
             ctx.count("lazy_handle_reads", len(reads))
-        if case["kind"] == "lock":
+        if case["kind"] == "lock" or case.get("inline_lock"):
             # empty selections are metadata probes (meta inference), not data reads
             unlocked = [ev for ev in reads if ev.locked is False and ev.size > 0]
             ctx.count("locked_reads_checked", len(reads))
